@@ -104,7 +104,7 @@ func (m *MonC04) AfterTx(o *TxOutcome) {
 		if p2 := sharePrice(o.Post, pk.Val, den); p2.Cmp(price) > 0 {
 			price = p2
 		}
-		b := budget(new(big.Rat).Mul(tt, price), 1, 8)
+		b := budget(new(big.Rat).Mul(tt, price), 1, 24) // about a dozen 18-digit operations per transition
 		// the module removes a whole delegation when the remainder is below its 0.01-share tolerance
 		b.Add(b, new(big.Rat).Mul(big.NewRat(1, 50), price))
 		if expect.Sign() != 0 || isActor {
@@ -317,7 +317,15 @@ func (m *MonC05) classify(op string, res TxResult, s *Snap, val, denom string, a
 	// significant digits at 18 decimals: its token value is off by more than 1e-6 relatively
 	if v != nil && v.HasInfo && !a.TotalValidatorShares.IsZero() && (strings.Contains(msg, "insufficient tokens") || strings.Contains(msg, "insufficient delegation shares") || strings.Contains(msg, "negative coin amount")) {
 		frac := decAmount(v.Info.ValidatorShares, denom).Quo(a.TotalValidatorShares)
-		if frac.LT(math.LegacyMustNewDecFromStr("0.000000000001")) {
+		// error of the share count needed for an amount: the fraction vs/tvs is stored with 18 digits, so the
+		// validator's token value (and every share count derived from it) is off by 1e-18/frac relatively;
+		// when that exceeds the module's 0.01-share tolerance full exits start to fail
+		S := decAmount(v.Info.TotalDelegatorShares, denom)
+		shareErr := math.LegacyZeroDec()
+		if frac.IsPositive() {
+			shareErr = S.Quo(frac).Mul(math.LegacyNewDecWithPrec(1, 18))
+		}
+		if frac.LT(math.LegacyMustNewDecFromStr("0.000000000001")) || shareErr.GTE(math.LegacyNewDecWithPrec(1, 2)) {
 			return "precision-18dec", fmt.Sprintf("%s fails with %q: the validator holds a fraction %s of the asset, which has too few significant digits at 18 decimals to convert between shares and tokens", op, msg, frac)
 		}
 	}
